@@ -93,3 +93,42 @@ package cluster
 //@   loop 1 invariant forall(k, 0, len(failedPoints), !memberU(successIds, failedPoints[k].Id))
 //@   loop 1 invariant forall(k, 0, len(failedPoints), failedPoints[k].Err == errMessage)
 //@   loop 1 invariant forall(i, 0, rangeindex+1, !memberU(successIds, allIds[i]) ==> exists(k, 0, len(failedPoints), failedPoints[k].Id == allIds[i]))
+
+// ---- shard loading, idle unloading, deletion: lock discipline (property C12) ----
+//@ locklevel ShardManager.shardLock 10
+//@ locklevel loadedShard.mu 20
+//@ guarded ShardManager.shardStore by shardLock
+//@ guarded loadedShard.shard by mu read
+
+//@ func (*ShardManager).loadShard
+//@   property C12
+//@   locks 10
+//@   requires unheld(sm.shardLock)
+//@   requires forallv(k string, contains(sm.shardStore, k) ==> sm.shardStore[k] != nil)
+//@   modifies sm.shardStore
+//@   ensures unheld(sm.shardLock)
+//@   ensures err == nil ==> result0 != nil
+
+//@ func (*ShardManager).cleanupRoutine
+//@   property C12
+//@   safety -panic -overflow
+//@   requires ls != nil && unheld(sm.shardLock) && unheld(ls.mu)
+//@   ensures unheld(sm.shardLock) && unheld(ls.mu)
+//@   loop 1 invariant unheld(sm.shardLock) && unheld(ls.mu)
+
+//@ func (*ShardManager).DoWithShard
+//@   property C12
+//@   requires unheld(sm.shardLock) && noneHeld(loadedShard.mu)
+//@   requires forallv(k string, contains(sm.shardStore, k) ==> sm.shardStore[k] != nil)
+//@   callback f requires arg0 != nil && heldR(ls.mu)
+//@   callback f ensures true
+//@   ensures unheld(sm.shardLock) && noneHeld(loadedShard.mu)
+
+//@ func (*ShardManager).DeleteCollectionShards
+//@   property C12
+//@   safety -overflow
+//@   requires unheld(sm.shardLock) && noneHeld(loadedShard.mu)
+//@   requires forallv(k string, contains(sm.shardStore, k) ==> sm.shardStore[k] != nil)
+//@   ensures unheld(sm.shardLock) && noneHeld(loadedShard.mu)
+//@   loop 1 invariant rangeindex >= -1 && heldW(sm.shardLock) && noneHeld(loadedShard.mu)
+//@   loop 1 invariant forallv(k string, contains(sm.shardStore, k) ==> sm.shardStore[k] != nil)
